@@ -468,6 +468,12 @@ impl MessageType {
 
     /// Convert a set of network bytes into a [`MessageType`] or return an error
     pub fn from_bytes(data: &[u8]) -> Result<Self, StunParseError> {
+        if data.len() < 2 {
+            return Err(StunParseError::Truncated {
+                expected: 2,
+                actual: data.len(),
+            });
+        }
         let data = BigEndian::read_u16(data);
         if data & 0xc000 != 0x0 {
             /* not a stun packet */
